@@ -58,6 +58,18 @@ pub fn text_palette() -> &'static Vec<String> {
             "a".into(),
             "text/plain".into(),
             "application/cose; cose-type=\"cose-sign1\"".into(),
+            "application/cose; cose-type=\"cose-sign\"".into(),
+            "application/cose; cose-type=\"cose-encrypt0\"".into(),
+            "application/cose; cose-type=\"cose-encrypt\"".into(),
+            "application/cose; cose-type=\"cose-mac\"".into(),
+            "application/cose; cose-type=\"cose-mac0\"".into(),
+            "application/cose-key".into(),
+            "application/cose-key-set".into(),
+            "application/cbor".into(),
+            "application/cwt".into(),
+            "application/json".into(),
+            "text/plain; charset=utf-8".into(),
+            "application/octet-stream".into(),
             "héllo wörld".into(),
             "x".repeat(24),
             "z".repeat(256),
@@ -67,7 +79,15 @@ pub fn text_palette() -> &'static Vec<String> {
 }
 
 pub fn pick_text_idx(rng: &mut Rng) -> usize {
-    rng.weighted(&[10, 14, 14, 10, 10, 8, 4, 1])
+    {
+        let n = text_palette().len();
+        // the last entry is the 5000-byte text: rare
+        if rng.chance(1, 60) {
+            n - 1
+        } else {
+            rng.below(n - 1)
+        }
+    }
 }
 
 /// Labels for `HeaderBuilder::value`, `CoseKeyBuilder::param`: reserved, boundary and extreme.
@@ -198,7 +218,7 @@ pub fn header_palette() -> &'static Vec<MHeader> {
             MHeader { alg: Some(MRegP::Text("custom".into())), ..h() },       // 23
             kid(&pat(300, 9)),                                                // 24 (protected bstr > 255 bytes)
             MHeader {
-                rest: vec![(MLabel::Int(0), MValue::Text(text_palette()[7].clone()))],
+                rest: vec![(MLabel::Int(0), MValue::Text(text_palette().last().unwrap().clone()))],
                 ..h()
             }, // 25
             MHeader { key_id: b"11".to_vec(), ..alg(-35) },                   // 26
